@@ -22,12 +22,14 @@ pub struct Scenario {
     /// Some(j): every search expires at its read j; None: cost model
     pub forced_all: Option<u64>,
     pub cost_node_ns: u64,
+    /// Some(i): the go at line i must arm the same budget as in a fresh process
+    pub fresh_of: Option<usize>,
 }
 
 impl Scenario {
     pub fn to_json(&self) -> Value {
         json!({"lines": self.lines, "twins": self.twins.iter().map(|(a, b)| json!([a, b])).collect::<Vec<_>>(),
-            "key_seed": self.key_seed, "forced_all": self.forced_all, "cost_node_ns": self.cost_node_ns})
+            "key_seed": self.key_seed, "forced_all": self.forced_all, "cost_node_ns": self.cost_node_ns, "fresh_of": self.fresh_of})
     }
     pub fn from_json(v: &Value) -> Option<Scenario> {
         Some(Scenario {
@@ -39,6 +41,7 @@ impl Scenario {
             key_seed: v["key_seed"].as_u64().unwrap_or(0),
             forced_all: v["forced_all"].as_u64(),
             cost_node_ns: v["cost_node_ns"].as_u64().unwrap_or(0),
+            fresh_of: v["fresh_of"].as_u64().map(|x| x as usize),
         })
     }
     fn sim_state(&self) -> SimState {
@@ -195,6 +198,36 @@ pub fn judge(sc: &Scenario, rep: &LoopReport) -> Judged {
             }
         }
     }
+    // explicit form of the history-independence comparison (replay files)
+    if let Some(gi) = sc.fresh_of {
+        if let Some(pos_i) = (0..gi.min(rep.exchanges.len())).rev().find(|&k| rep.exchanges[k].line.starts_with("position")) {
+            if gi < rep.exchanges.len() {
+                let fresh = Scenario {
+                    lines: vec![rep.exchanges[pos_i].line.clone(), rep.exchanges[gi].line.clone(), "quit".into()],
+                    twins: vec![],
+                    key_seed: sc.key_seed,
+                    forced_all: sc.forced_all,
+                    cost_node_ns: sc.cost_node_ns,
+                    fresh_of: None,
+                };
+                let rep_f = run_explicit(&fresh);
+                let lf = armed_budgets(&rep_f).get(1).cloned().flatten();
+                drop(st);
+                let ls = armed_budgets(rep).get(gi).cloned().flatten();
+                if lf != ls {
+                    j.violations.push((
+                        "budget_depends_on_earlier_commands".into(),
+                        format!("'{}' after '{}' armed {:?} in this session but {:?} in a fresh process", rep.exchanges[gi].line, rep.exchanges[pos_i].line, ls, lf),
+                    ));
+                }
+                match &rep.outcome {
+                    Outcome::Crash(m) => j.violations.push(("crash".into(), m.clone())),
+                    _ => {}
+                }
+                return j;
+            }
+        }
+    }
     match &rep.outcome {
         Outcome::Crash(m) => j.violations.push(("crash".into(), m.clone())),
         _ => {}
@@ -281,6 +314,7 @@ pub fn generate(seed: u64, long: bool) -> Scenario {
         key_seed: rng.next_u64(),
         forced_all: forced,
         cost_node_ns: if forced.is_some() { 0 } else { rng.log_range(200_000, 5_000_000) },
+        fresh_of: None,
     };
     // a game on the rules model (the engine's answers are not needed for this property:
     // the allocation depends on the position only through the side to move)
@@ -309,6 +343,9 @@ pub fn generate(seed: u64, long: bool) -> Scenario {
         }
         sc.lines.push(l);
         let me = if p.white_to_move { 0 } else { 1 };
+        // now and then a go of an increment game leaves the increments out (or a sudden-death
+        // game sends them): what an earlier go said must not carry over
+        let with_inc = if rng.chance(1, 6) { !with_inc } else { with_inc };
         let (rem, inc) = (clocks[me], if with_inc { incs[me] } else { 0 });
         let (orem, oinc) = (clocks[1 - me], incs[1 - me]);
         // one go in six also says how many moves remain to the next time control
@@ -351,6 +388,7 @@ fn generate_long(rng: &mut Rng) -> Scenario {
         key_seed: rng.next_u64(),
         forced_all: None,
         cost_node_ns: rng.log_range(1_000, 5_000),
+        fresh_of: None,
     };
     let start = loop {
         let p = gen::random_position(rng);
@@ -388,6 +426,60 @@ fn generate_long(rng: &mut Rng) -> Scenario {
     }
     sc.lines.push("quit".into());
     sc
+}
+
+/// Budgets armed per exchange index (None where no clocked go / no search).
+fn armed_budgets(rep: &LoopReport) -> Vec<Option<Option<std::time::Duration>>> {
+    let st = rep.st.borrow();
+    rep.exchanges
+        .iter()
+        .map(|x| {
+            if x.line.starts_with("go") && (x.line.contains("wtime") || x.line.contains("btime")) {
+                x.search_ordinal.and_then(|o| st.searches.get(o)).map(|r| r.limit)
+            } else {
+                None
+            }
+        })
+        .collect()
+}
+
+/// Some(None): compared, equal. Some(Some(..)): differs; the returned scenario (the session
+/// up to that go, then quit) shows it through the `fresh` marker judged in `judge`.
+fn history_independence(sc: &Scenario, rep: &LoopReport, seed: u64) -> Option<Option<(String, String, Scenario)>> {
+    let armed = armed_budgets(rep);
+    let gos: Vec<usize> = (0..armed.len()).filter(|&i| armed[i].is_some()).collect();
+    // a go that is not the first clocked go of the session (so that there is a history)
+    if gos.len() < 2 {
+        return None;
+    }
+    let mut rng = Rng::new(seed ^ 0x5eed);
+    let gi = gos[1 + rng.usize_below(gos.len() - 1)];
+    let pos_i = (0..gi).rev().find(|&k| rep.exchanges[k].line.starts_with("position"))?;
+    let fresh = Scenario {
+        lines: vec![rep.exchanges[pos_i].line.clone(), rep.exchanges[gi].line.clone(), "quit".into()],
+        twins: vec![],
+        key_seed: sc.key_seed,
+        forced_all: sc.forced_all,
+        cost_node_ns: sc.cost_node_ns,
+        fresh_of: None,
+    };
+    let rep_f = run_explicit(&fresh);
+    let armed_f = armed_budgets(&rep_f);
+    let lf = armed_f.get(1).cloned().flatten();
+    let ls = armed[gi];
+    if lf == ls {
+        return Some(None);
+    }
+    // explicit scenario: the session up to and including that go; `fresh_of` asks the judge
+    // to compare its last clocked go with a fresh process
+    let mut lines: Vec<String> = rep.exchanges[..=gi].iter().map(|x| x.line.clone()).collect();
+    lines.push("quit".into());
+    let sc2 = Scenario { lines, twins: vec![], key_seed: sc.key_seed, forced_all: sc.forced_all, cost_node_ns: sc.cost_node_ns, fresh_of: Some(gi) };
+    Some(Some((
+        "budget_depends_on_earlier_commands".into(),
+        format!("'{}' after '{}' armed {:?} in this session but {:?} in a fresh process", rep.exchanges[gi].line, rep.exchanges[pos_i].line, ls, lf),
+        sc2,
+    )))
 }
 
 pub fn run_explicit(sc: &Scenario) -> LoopReport {
@@ -515,6 +607,19 @@ pub fn run(ctx: &Ctx) -> i32 {
             }
         }
         res.violations = violations_of(&sc, &rep, &j, i, seed);
+        // history independence: one clocked go of the session, with its position command,
+        // in a fresh process must arm the same budget (the allocation depends on the mover's
+        // clock and increment given in THIS go, not on earlier commands)
+        if res.violations.is_empty() && sc.forced_all.is_some() {
+            if let Some(v) = history_independence(&sc, &rep, seed) {
+                res.probes.add("budgets_compared_with_a_fresh_process", 1);
+                if let Some((class, detail, sc2)) = v {
+                    let rep2 = run_explicit(&sc2);
+                    let h2 = rep2.st.borrow().log_hash;
+                    res.violations.push(Violation { prop: "C12".into(), class, detail, scenario: sc2.to_json(), sim_index: i, sim_seed: seed, log_hash: h2 });
+                }
+            }
+        }
         if i < 3 {
             res.sample = Some(json!({"lines": sc.lines.iter().take(6).collect::<Vec<_>>(), "commands": sc.lines.len(), "twins": sc.twins.len(), "forced_all": sc.forced_all}));
         }
@@ -522,7 +627,7 @@ pub fn run(ctx: &Ctx) -> i32 {
     });
     let ev = Evidence {
         level: "exploration",
-        rule: "One sim = one simulated match fragment (1-14 plies from startpos or a playout FEN, both colours to move): per ply `position ... moves ...` and `go wtime W btime B [winc I binc J]` with the tokens in a seeded order (one go in six also carries `movestogo n`, one in eight a `depth` cap, before or after them), clock values from 0 / 1 ms / below the 5 s reserve / around it / seconds / minutes / hours, increments 0 / small / large / equal to or larger than the remaining time; the mover's clock is then debited and credited like a GUI does. Most sims let every search expire at its first clock read (the budget is observed where the real go handler arms the real timer, so the search itself is irrelevant); one in five runs real searches under a cost model, and one sim in twenty lets the engine think long (1-5 us per node, budgets of 0.2-2.5 s: 10^5..10^6 nodes per move, time scrambles with a large increment or comfortable clocks), where additionally the virtual time from go to bestmove must not exceed the mover's remaining time by more than the overrun C07 allows (4096 nodes). Each go is followed by a twin with the opponent's clock and increment replaced and the tokens permuted. Oracle: a budget is armed; budget <= mover's remaining time; < when any time remains; twin arms the same budget; in sims whose searches really run, bestmove comes within the mover's remaining time. Evaluations = clocked go commands judged; distinct by (side, remaining, increment, token order).".into(),
+        rule: "One sim = one simulated match fragment (1-14 plies from startpos or a playout FEN, both colours to move): per ply `position ... moves ...` and `go wtime W btime B [winc I binc J]` with the tokens in a seeded order (one go in six also carries `movestogo n`, one in eight a `depth` cap, before or after them), clock values from 0 / 1 ms / below the 5 s reserve / around it / seconds / minutes / hours, increments 0 / small / large / equal to or larger than the remaining time; the mover's clock is then debited and credited like a GUI does. Most sims let every search expire at its first clock read (the budget is observed where the real go handler arms the real timer, so the search itself is irrelevant); one in five runs real searches under a cost model, and one sim in twenty lets the engine think long (1-5 us per node, budgets of 0.2-2.5 s: 10^5..10^6 nodes per move, time scrambles with a large increment or comfortable clocks), where additionally the virtual time from go to bestmove must not exceed the mover's remaining time by more than the overrun C07 allows (4096 nodes). Each go is followed by a twin with the opponent's clock and increment replaced and the tokens permuted. For one clocked go per session (not the first) the same position and go in a fresh process must arm the same budget (history independence; gos of one game sometimes leave the increments out). Oracle: a budget is armed; budget <= mover's remaining time; < when any time remains; twin arms the same budget; in sims whose searches really run, bestmove comes within the mover's remaining time. Evaluations = clocked go commands judged; distinct by (side, remaining, increment, token order).".into(),
         extra: serde_json::Map::new(),
         assumptions: vec!["the oracle reads wtime/btime/winc/binc as 'token followed by its value, in any order'; nothing is asserted about the allocation formula".into()],
         exhaustive: None,
